@@ -24,6 +24,8 @@ TIMES = 'history/times.py'; HFILES = 'history/files.py'; TNETS = 'server/tnetstr
 POLL = 'server/enip/poll.py'; DEFAULTS = 'server/enip/defaults.py'; NETWORK = 'server/network.py'
 
 VARIANTS = [
+    V( 'opvalues-stripped-before-cast', CLIENT, "opr['data'] = list( map( cast, val_list ))", "opr['data']		= list( map( cast, ( v.strip() for v in val_list )))", fires=[ 'T-OPVALUES' ] ),
+    V( 'opvalues-cast-by-comprehension', CLIENT, "opr['data'] = list( map( cast, val_list ))", "opr['data']		= [ cast( v ) for v in val_list ]", silent=[ 'T-OPVALUES' ] ),
     V( 'merge-test-with-a-local-edge', MODBUS, "if ( address < base + length\n or ( address // 10000 == base // 10000\n and address < base + length + ( reach or 1 ))):", "edge		= ( base // 10000 + 1 ) * 10000\n            if ( address < base + length\n                 or address < min( edge, base + length + ( reach or 1 ))):", silent=[ 'M-BANK', 'M-EXTENT' ] ),
     V( 'extent-clipped-at-block-edge', MODBUS, "length = max( length, address + count - base )", "length	= max( length, min( ( base // 10000 + 1 ) * 10000, address + count ) - base )", fires=[ 'M-EXTENT' ] ),
     V( 'tnet-list-elements-default-encoding', TNETS, "payload = b''.join( dump(i, encoding=encoding) for i in data )", "payload = b''.join( map( dump, data ))", fires=[ 'T-TNET' ] ),
